@@ -101,6 +101,16 @@ pub fn by_id() -> &'static BTreeMap<String, Vec<usize>> {
     })
 }
 
+/// Another database unit with the same quantity, dimension, scale and offset (EUR for USD, per_second for hertz,
+/// millibar for hectopascal): a different unit that nothing but its identifiers tells apart. None if there is none
+/// (or the library's table has no unit of those identifiers).
+pub fn sibling_of(ids: &[String]) -> Option<Vec<String>> {
+    let me = db().iter().find(|u| u.ids == ids)?;
+    db().iter()
+        .find(|u| u.ids != me.ids && u.quantity == me.quantity && u.dim == me.dim && u.scale == me.scale && u.offset == me.offset && crate::rval::unit_by_ids(&u.ids).is_some())
+        .map(|u| u.ids.clone())
+}
+
 pub fn lookup(id: &str) -> Option<&'static DbUnit> {
     by_id().get(id).and_then(|v| v.first()).map(|i| &db()[*i])
 }
